@@ -145,6 +145,13 @@ class C02(Prop):
             spec['md'] = (bytes([b]) * k).hex()
             spec['d'] = FR.rbytes(rng, 0, 40).hex()
             out.append({'kind': 'enc', 'spec': spec})
+        # the 16-bit resume-token length at its byte boundaries (SETUP with the resume flag, RESUME)
+        for _ in range(6 if tier == 'quick' else 60):
+            spec = FR.gen_spec(rng, kinds=['SETUP', 'RESUME'])
+            if spec['t'] == 'SETUP':
+                spec['R'] = True
+            spec['tok'] = (bytes([rng.getrandbits(8)]) * rng.choice([255, 256, 32767, 32768, 65535])).hex()
+            out.append({'kind': 'enc', 'spec': spec})
         for _ in range(n):
             base = FR.build(FR.gen_spec(rng)).serialize()
             out.append({'kind': 'dec', 'blob': mutate(rng, base).hex()})
